@@ -87,15 +87,37 @@ async def run_op(interp, t, op, opid):
             return None
         w.ev("e", t, opid, ["ok", r])
         return r
+    def truth(e):
+        # what the stream itself reports at the instant an error surfaces (direct C13 oracle)
+        st = objs[op[1]].statistics()
+        interp.w.ev("truth", t, opid, type(e).__name__,
+             [st.current_buffer_used, st.open_send_streams, st.open_receive_streams])
+
+    async def told(aw):
+        try:
+            return await aw
+        except (anyio.EndOfStream, anyio.BrokenResourceError) as e:
+            truth(e)
+            raise
+
+    def told_sync(fn, *a):
+        try:
+            return fn(*a)
+        except (anyio.EndOfStream, anyio.BrokenResourceError) as e:
+            truth(e)
+            raise
+
     if k == "send":
-        return await interp._blocking(t, opid, "send", [op[1], op[2]], objs[op[1]].send(op[2]))
+        return await interp._blocking(t, opid, "send", [op[1], op[2]],
+                                      told(objs[op[1]].send(op[2])))
     if k == "send_nowait":
         return interp._sync(t, opid, "send_nowait", [op[1], op[2]],
-                            lambda: objs[op[1]].send_nowait(op[2]))
+                            lambda: told_sync(objs[op[1]].send_nowait, op[2]))
     if k == "recv":
-        return await interp._blocking(t, opid, "recv", [op[1]], objs[op[1]].receive())
+        return await interp._blocking(t, opid, "recv", [op[1]], told(objs[op[1]].receive()))
     if k == "recv_nowait":
-        return interp._sync(t, opid, "recv_nowait", [op[1]], objs[op[1]].receive_nowait)
+        return interp._sync(t, opid, "recv_nowait", [op[1]],
+                            lambda: told_sync(objs[op[1]].receive_nowait))
     if k == "clone":
         def f():
             objs[op[2]] = objs[op[1]].clone()
